@@ -592,7 +592,16 @@ nextBTreeItems(SetIteration *i)
         }
         else
         {
+            /* (the key and value of the previous position are released
+            * already:  finiSetIteration must not do it again)
+            */
             i->position = -1;
+            /* IndexError is how BTreeItems_seek says "past the end";
+            * anything else (a node could not be loaded, out of memory) is
+            * an error of the set operation, not the end of this operand.
+            */
+            if (!PyErr_ExceptionMatches(PyExc_IndexError))
+                return -1;
             PyErr_Clear();
         }
     }
@@ -632,7 +641,16 @@ nextTreeSetItems(SetIteration *i)
         }
         else
         {
+            /* (the key and value of the previous position are released
+            * already:  finiSetIteration must not do it again)
+            */
             i->position = -1;
+            /* IndexError is how BTreeItems_seek says "past the end";
+            * anything else (a node could not be loaded, out of memory) is
+            * an error of the set operation, not the end of this operand.
+            */
+            if (!PyErr_ExceptionMatches(PyExc_IndexError))
+                return -1;
             PyErr_Clear();
         }
     }
